@@ -4,6 +4,7 @@ import (
 	"fmt"
 	"go/constant"
 	"go/token"
+	"go/types"
 	"strings"
 
 	"golang.org/x/tools/go/ssa"
@@ -46,6 +47,9 @@ type absInterp struct {
 	fields map[string]aiVal
 	// arrays: elements stored into local array literals, by allocation
 	arrays map[*ssa.Alloc]map[int64]aiVal
+	// nobj numbers the objects allocated during the run (struct allocations become symbols obj1, obj2, …
+	// whose fields live in `fields` under "<object>.<field>")
+	nobj int
 	// call gives the meaning of a call (after helper inlining was declined); handled=false → unknown
 	call func(ai *absInterp, call *ssa.Call) (aiVal, bool)
 	// load gives the meaning of *addr
@@ -141,6 +145,16 @@ func (ai *absInterp) get(v ssa.Value) aiVal {
 	return aiUnknown()
 }
 
+// fieldKey: the key under which a field of the object addressed by fa is kept: "<object>.<field>" when
+// the object is a symbol of the run, the bare field name otherwise (the single instance under analysis).
+func (ai *absInterp) fieldKeys(fa *ssa.FieldAddr) []string {
+	name := fieldName(fa.X.Type(), fa.Field)
+	if base := ai.get(fa.X); base.kind == "sym" {
+		return []string{base.s + "." + name, name}
+	}
+	return []string{name}
+}
+
 func (ai *absInterp) equal(a, b aiVal) (bool, bool) {
 	switch {
 	case a.kind == "nil" && b.kind == "nil":
@@ -162,7 +176,12 @@ func (ai *absInterp) equal(a, b aiVal) (bool, bool) {
 		return a.s == b.s, true
 	}
 	if ai.cmp != nil {
-		return ai.cmp(a, b)
+		if eq, ok := ai.cmp(a, b); ok {
+			return eq, true
+		}
+	}
+	if a.kind == "sym" && b.kind == "sym" {
+		return a.s == b.s, true // two symbols of the run are the same object / text iff they have the same name
 	}
 	return false, false
 }
@@ -170,10 +189,12 @@ func (ai *absInterp) equal(a, b aiVal) (bool, bool) {
 // run executes from block `start` (entered from `pred`) at instruction index idx.
 func (ai *absInterp) run(start, pred *ssa.BasicBlock, idx int) aiOutcome {
 	type frame struct {
-		call *ssa.Call
-		blk  *ssa.BasicBlock
-		idx  int
-		pred *ssa.BasicBlock
+		call     *ssa.Call
+		blk      *ssa.BasicBlock
+		idx      int
+		pred     *ssa.BasicBlock
+		fn       *ssa.Function
+		savedEnv map[ssa.Value]aiVal // recursion: the caller's values of the same function
 	}
 	var frames []frame
 	cur := start
@@ -199,8 +220,15 @@ func (ai *absInterp) run(start, pred *ssa.BasicBlock, idx int) aiOutcome {
 					}
 				case token.MUL:
 					if fa, ok := t.X.(*ssa.FieldAddr); ok && ai.fields != nil {
-						if v, has := ai.fields[fieldName(fa.X.Type(), fa.Field)]; has {
-							ai.env[t] = v
+						found := false
+						for _, k := range ai.fieldKeys(fa) {
+							if v, has := ai.fields[k]; has {
+								ai.env[t] = v
+								found = true
+								break
+							}
+						}
+						if found {
 							continue
 						}
 					}
@@ -279,7 +307,7 @@ func (ai *absInterp) run(start, pred *ssa.BasicBlock, idx int) aiOutcome {
 			case *ssa.Store:
 				val := ai.get(t.Val)
 				if fa, ok := t.Addr.(*ssa.FieldAddr); ok && ai.fields != nil {
-					ai.fields[fieldName(fa.X.Type(), fa.Field)] = val
+					ai.fields[ai.fieldKeys(fa)[0]] = val
 				}
 				if ia, ok := t.Addr.(*ssa.IndexAddr); ok {
 					if al, ok := ia.X.(*ssa.Alloc); ok {
@@ -296,6 +324,15 @@ func (ai *absInterp) run(start, pred *ssa.BasicBlock, idx int) aiOutcome {
 				}
 				if ai.store != nil {
 					ai.store(ai, t.Addr, val)
+				}
+			case *ssa.Alloc:
+				if _, isArr := arrayLen(t.Type()); !isArr {
+					if pt, ok := t.Type().Underlying().(*types.Pointer); ok {
+						if _, isStruct := pt.Elem().Underlying().(*types.Struct); isStruct {
+							ai.nobj++
+							ai.env[t] = aiSym(fmt.Sprintf("obj%d", ai.nobj))
+						}
+					}
 				}
 			case *ssa.MakeSlice:
 				if n := ai.get(t.Len); n.kind == "int" && n.n >= 0 && n.n <= 8 {
@@ -371,13 +408,32 @@ func (ai *absInterp) run(start, pred *ssa.BasicBlock, idx int) aiOutcome {
 						}
 					}
 				}
-				if g := cc.StaticCallee(); g != nil && ai.c.InModule(g) && g.Blocks != nil && g != ai.fn && len(frames) < 4 && ai.inline != nil && ai.inline(g) {
-					for k, prm := range g.Params {
+				if g := cc.StaticCallee(); g != nil && ai.c.InModule(g) && g.Blocks != nil && len(frames) < 6 && ai.inline != nil && ai.inline(g) {
+					var args []aiVal
+					for k := range g.Params {
 						if k < len(cc.Args) {
-							ai.env[prm] = ai.get(cc.Args[k])
+							args = append(args, ai.get(cc.Args[k]))
 						}
 					}
-					frames = append(frames, frame{t, cur, ii + 1, pred})
+					fr := frame{call: t, blk: cur, idx: ii + 1, pred: pred, fn: g}
+					recursive := g == cur.Parent()
+					for _, f := range frames {
+						if f.fn == g {
+							recursive = true
+						}
+					}
+					if recursive {
+						fr.savedEnv = map[ssa.Value]aiVal{}
+						for k, v := range ai.env {
+							fr.savedEnv[k] = v
+						}
+					}
+					for k, prm := range g.Params {
+						if k < len(args) {
+							ai.env[prm] = args[k]
+						}
+					}
+					frames = append(frames, fr)
 					cur, pred, idx = g.Blocks[0], nil, 0
 					jumped = true
 					continue
@@ -410,6 +466,9 @@ func (ai *absInterp) run(start, pred *ssa.BasicBlock, idx int) aiOutcome {
 				if n := len(frames); n > 0 {
 					fr := frames[n-1]
 					frames = frames[:n-1]
+					if fr.savedEnv != nil {
+						ai.env = fr.savedEnv
+					}
 					switch len(rs) {
 					case 0:
 						ai.env[fr.call] = aiUnknown()
